@@ -15,24 +15,26 @@ CLAIMED = {
             'save path of every archive scope; one common entry-point protocol (context, archive, serialize, Finalize) in all LoadObject/SaveObject '
             'overloads; XML node shapes emitted by the save side are accepted by the load side (childless element = empty value; recorded known '
             'findings); MsgPack writer-emits subset-of reader-accepts over the decision tables of both codecs; JSON rendering result consumed and '
-            'stream source encoding named.',
+            'stream source encoding named; a value the stream reader delivers in chunks is assembled in order (inductive step of the chunk loop).',
             'cast-kind audit on the typed AST + call protocol rule + writer/reader decision-table inclusion (abstract interpretation)', '§5 C01'),
     'C02': ('other',
             'Structural necessary conditions of "no input can crash or exhaust the loader": no escape to std::terminate on load paths, no '
             'input-driven recursion, no unclamped header-declared pre-sizing, every read of the MsgPack input buffer covered by a bounds guard '
-            'on every abstract path for all 256 first bytes (both readers and helpers), array end guards agree with IsEnd(). Hangs, arithmetic '
-            'UB and the CSV scanner are not decided.',
+            'on every abstract path for all 256 first bytes (both readers and helpers), array end guards agree with IsEnd(); CSV unescape reads stay inside the cell in every loop iteration (inductive facts by Houdini); '
+            'the stream window analysis incl. disjoint memcpy regions. Hangs and arithmetic UB in general are not decided.',
             'may-throw closure + call-graph SCCs + taint-to-sink flow + guard domination by abstract interpretation over the first-byte domain', '§5 C02'),
     'C03': ('other',
             'Structural necessary conditions of order-independent field loading: failure results of positioning/refill calls are consumed, '
             'seekg after EOF is preceded by clear(), single-value wrappers store only on a loaded path and return that result, validators get '
             'the real result, the MsgPack object scope keeps item accounting (keys+values consumed == 2 x pairs accounted, modulo the pending '
-            'key) on every CFG path with helper summaries, and the stream window keeps its logical position. Which value a key maps to is not decided.',
+            'key) on every CFG path with helper summaries, and the stream window keeps its logical position; the CSV readers select the column whose header equals the key (execution over a header row '
+            'holding every prefix relation). Which value a MsgPack key maps to is not decided.',
             'CFG path enumeration with typestate (pending key) and balance events, interprocedural helper summaries; linear window analysis', '§5 C03'),
     'C04': ('other',
             'Value-flow of arithmetic stores by clang cast kinds and types in every instantiated value loader (no narrowing / sign-changing / '
             'int-float cast reaches a load target), handler discipline of ConvertByPolicy and of the three other policy mappers, success-flag '
-            'discipline and exception-type discipline of the checked conversions. The arithmetic of the range test itself is not decided.',
+            'discipline and exception-type discipline of the checked conversions; interval analysis of every integer-to-integer conversion; MsgPack integer/float '
+            'readers hand the payload on with the width and signedness of the wire format; JSON numbers reach the checked conversion through the getter valid for their class.',
             'cast-kind classification of stores (type-checked AST per instantiation) + handler/exception discipline rules', '§5 C04'),
     'C05': ('other',
             'Path-complete accounting on the clang CFG: in the MsgPack array/binary read scopes every normal path consumes exactly as many '
@@ -43,8 +45,8 @@ CLAIMED = {
     'C06': ('other',
             'Abstract interpretation of both MsgPack writers over value/length intervals partitioned at every compared constant, against an '
             'oracle written from the MessagePack specification: format code, length-field width, minimal encoded size, big-endian payload '
-            'of the argument itself, oversize => exception, timestamp headers and field layout; twin equality of the two writers; floor-based '
-            'seconds/nanoseconds split. Exhaustive over the partition cells; payload bit patterns of floats are not decided.',
+            'of the argument itself, oversize => exception, timestamp headers and field layout; twin equality of the two writers; the '
+            'seconds/nanoseconds split of time values decided over linear forms (no overflow, 0 <= ns < 10^9, sec*10^9+ns exact). Exhaustive over the partition cells; payload bit patterns of floats are not decided.',
             'decision tables by abstract interpretation over an interval partition, compared with a hand-written spec oracle', '§5 C06'),
     'C07': ('other',
             'Abstract interpretation of both MsgPack readers over the exact domain of all 256 first bytes against an oracle written from the '
@@ -54,17 +56,18 @@ CLAIMED = {
     'C08': ('other',
             'Conformance of the emitted text is delegated to rapidjson/pugixml; decided are the adapter obligations around them: Accept() result '
             'consumed, ParseStream source encoding, UtfType-to-backend maps, encoding/BOM/format options reaching the renderers, XML input '
-            'encoding handling. Equality of the recovered data model under re-rendering is not decided.',
+            'encoding handling, the decision table of the JSON value loader over the kinds of JSON value (every number spelling loads into a floating target). Equality of the recovered data model under re-rendering is not decided.',
             'result-consumption and argument-flow rules over the typed AST, switch tables', '§5 C08'),
     'C09': ('other',
             'Symbolic linear evaluation of every view built from a CSV cell descriptor (exactly [Offset, Offset+Size) in all four ReadValue '
             'bodies), abstract interpretation of the field-quoting decision over all byte values x separators, presence of the row-width check '
-            'on every row path, separator validation before construction. The scanner state machine itself is not decided.',
+            'on every row kind (execution over row states), separator validation before construction, and the transition table of the field scanner of both readers '
+            'against RFC 4180 (one generic iteration per character class x quotes seen x last CR x end of input).',
             'dimension typing by linear evaluation + decision table of the quoting predicate + must-pass-through checks', '§5 C09'),
     'C10': ('other',
             'Sibling cross-check of the duplicated memory/stream implementations: equal decision tables of the two MsgPack readers for all '
-            'methods x 256 first bytes; writer/CSV twins and stream-positioning discipline as they are added. Decides agreement of the copies, '
-            'not behaviour at every chunk alignment.',
+            'methods x 256 first bytes; writer tables; CSV twins compared cell by cell (row states, column selection, scanner transitions), cell reads do not write the row, '
+            'chunked strings are assembled in order, stream-positioning discipline. Decides agreement of the copies, not behaviour at every chunk alignment.',
             'twin comparison of decision tables / statement skeletons of sibling implementations', '§5 C10'),
     'C11': ('other',
             'Abstract interpretation of the cross-width transcoders over the scalar-value / code-unit classes of the Unicode standard: for '
@@ -81,7 +84,8 @@ CLAIMED = {
             'Calendar correctness and the exact print/parse round trip are NOT decided (integer arithmetic over 2^64 instants). Decided is one '
             'necessary structural clause of "the text form is the correct date-time": the text is produced inside its buffer - every store of '
             'PrintIsoUtc / PrintDurationPart lies in [buf, end) for symbolic pointers and symbolic snprintf/to_chars results, and callers pass '
-            'a local array with its own end.',
+            'a local array with an end inside it - plus: no signed overflow in the printer for any representable time point of any instantiated precision, '
+            'era divisions are floor divisions, and the binary timestamp form (split, both MsgPack writers and readers) keeps the value.',
             'linear-constraint analysis of buffer cursors (Fourier-Motzkin entailment) over the typed AST', '§6, §11.7'),
     'C15': ('other',
             'Decides the "never wraps" clause where it is visible in the code: interval abstract interpretation with adaptive cell splitting '
@@ -98,13 +102,14 @@ CLAIMED = {
             'abstract interpretation over finite character-class / error-code domains, linear constraints, call-shape rules', '§5 C16'),
     'C17': ('other',
             'Validator plumbing decided structurally per instantiation (fold order over all validators, message forwarding, grouping/append, '
-            'cap comparison, final throw iff non-empty map, entry-point protocol) and the built-in validators decided by abstract interpretation '
+            'grouping/append and cap decided by executing AddValidationError over a map model, final throw iff non-empty map, entry-point protocol) and the built-in validators decided by abstract interpretation '
             'over the finite orderings of value/size vs bounds x loaded. Path strings and the Email/Phone grammars are not decided.',
             'AST rules per instantiation + decision tables over finite orderings', '§5 C17'),
     'C18': ('other',
             'Every container/wrapper loader carries its stale-state eliminator on every normal CFG path of every load instantiation '
             '(final resize(counter) with one increment per element load; clear() before insertion; clear iff Clean; reset only on the '
-            'not-loaded path; assign; size-mismatch throw) and the map load modes have no forbidden effect. Final values are not decided.',
+            'not-loaded path; assign; size-mismatch throw), the sequence loaders executed over a container model (target = loaded items in order for every '
+            'prior size x item count x estimate) and the map load modes have no forbidden effect. Element values are not decided.',
             'CFG path enumeration (event order / counting) + effect rules per switch case', '§5 C18'),
     'C13': ('other',
             'Decides the structural clauses: BOM constants against the Unicode tables; BOM test order, reported encoding and data offset; the '
